@@ -126,11 +126,28 @@ def make_context(regs):
     """regs: list of (explicit_key | None, value); None = through register_global_constant"""
     from pytezos.context.impl import ExecutionContext
     ctx = ExecutionContext()
+    pending = []
     for key, value in regs:
         if key is None:
-            ctx.register_global_constant(value)
+            try:
+                ctx.register_global_constant(value)
+            except Exception:      # noqa: BLE001 — an implementation may insist on registering referenced constants first (the chain does)
+                pending.append(value)
         else:
             ctx.global_constants[key] = value
+    # the registered SET is what the property is about: retry in dependency order; what is refused even then (a reference to a
+    # hash that is not registered at all) is left out and counted
+    progress = True
+    while pending and progress:
+        progress, rest = False, []
+        for value in pending:
+            try:
+                ctx.register_global_constant(value)
+                progress = True
+            except Exception:      # noqa: BLE001
+                rest.append(value)
+        pending = rest
+    ctx.verif_refused = pending
     return ctx
 
 
@@ -421,6 +438,12 @@ def run(ctx):
         ectx = make_context(regs)
         stored = [(k, copy.deepcopy(v)) for k, v in ectx.global_constants.items()]
         c['stored_keys'] = [k for k, _ in stored]
+        if ectx.verif_refused:
+            # registrations the implementation refuses outright (unknown reference): not part of the registered set
+            refused = [mich.to_line(v) for v in ectx.verif_refused]
+            keep = [i for i, (k, v) in enumerate(c['regs']) if not (k is None and mich.to_line(v) in refused)]
+            c['regs'], c['keys'] = [c['regs'][i] for i in keep], [c['keys'][i] for i in keep]
+            ctx.count('registration-refused-unknown-reference', len(refused))
         # the model gets the registrations AS MADE: `*` = through register_global_constant (the model computes the key itself
         # with the Lean BLAKE2b-256 / SHA-256 and the C05 forger), an explicit key = written into global_constants directly
         lines.append(' '.join([str(len(c['regs']))] + [('*' if k is None else k.encode().hex()) + ' ' + mich.to_line(v) for k, v in c['regs']]
